@@ -17,12 +17,21 @@ type stats struct {
 	lifetimeConnections uint64
 }
 
-func (s *stats) incrementConnections() {
+// incrementConnections takes a connection slot. The limit is checked once more
+// together with the increment, under one lock: all connections which were in
+// the SSH handshake at the same time have passed the check at accept time.
+func (s *stats) incrementConnections() error {
 	defer s.logServerStats()
 	s.mutex.Lock()
+	defer s.mutex.Unlock()
+
+	if s.currentConnections >= config.Server.MaxConnections {
+		return fmt.Errorf("Exceeded max allowed concurrent connections of %d",
+			config.Server.MaxConnections)
+	}
 	s.currentConnections++
 	s.lifetimeConnections++
-	s.mutex.Unlock()
+	return nil
 }
 
 func (s *stats) decrementConnections() {
